@@ -46,5 +46,6 @@ class checkpoint(Flow):
     def handle_flow_checkpoint(self, parent_chain):
         # rebuilt from the checkpoint's own steps every time the flow is chained: the same
         # Flow object may be run again (e.g. after the checkpoint directory was removed)
-        self.chain = itertools.chain(self.steps, parent_chain)
+        # the links that precede the checkpoint in the flow run first, then the checkpoint's own steps
+        self.chain = itertools.chain(parent_chain, self.steps)
         return [self]
